@@ -243,7 +243,9 @@ func CompareDataset(path string, o *Obj, d *obs.Dataset, opt Opts) []Problem {
 		ps = append(ps, compareAttrs(path, o.Attrs, d.Attrs, d.AttrsErr)...)
 		return ps
 	}
-	if !opt.SkipData && o.Written && eqU64(d.Dims, o.Dims) {
+	// filtered chunks cannot be read back by the library's own reader (C08's open finding): their stored bytes are judged by
+	// the independent decoder (CompareIndep), not here
+	if !opt.SkipData && o.Written && eqU64(d.Dims, o.Dims) && len(s.Filters) == 0 {
 		// Read
 		if want, ok := s.ExpectedRead(o.Raw); ok {
 			if d.ReadErr != "" {
